@@ -40,6 +40,7 @@ def run(tier):
             k = next((i for i in range(min(len(a), len(b))) if a[i] != b[i]), min(len(a), len(b)))
             chk.violation('shared:%s:basic-vs-extended' % n, 'Basic and Extended differ at piece %d: basic=%s extended=%s' % (k, a[k] if k < len(a) else None, b[k] if k < len(b) else None), {'zone': n, 'at': k})
             ndiff += 1
+    tzconf.check_configurations(chk, exe, 'basic', 'zonedb')
     # algorithm level: BasicProc.tla (the init(year) algorithm) bound to the real processor's cache for every zone x year
     # 1999..2050, its invariants (five slots suffice, sorted, no invalid start), and its step function judged by TzSem.tla
     extproc.check_shipped(chk, 'basic')
